@@ -2,7 +2,8 @@
 
 Two-run relations on the real ``EASRadio.__call__`` + ``calculate_snr`` (global generator
 seeded identically, so the per-position random factors are the same in both runs):
-  energy     scaling every shower energy by k scales every SNR by k        (1e-12)
+  energy     scaling every shower energy by k scales every SNR by k   (1e-12 of the summed
+             bin magnitudes + 1e-9 of the value: terms of either sign cancel)
   antennas   SNR(n antennas) == sqrt(n) SNR(1 antenna)                      (1e-12)
   order      with the constant RNG stub, permuting the events permutes fields and SNR
   finite     every field and SNR is finite for events from the real upstream stages with
@@ -176,13 +177,20 @@ def relations(ctx, si, payload):
             ctx.obs["events_outside_range_seen"] = ctx.obs.get("events_outside_range_seen", 0) + int((~inr).sum())
             ctx.obs["events_inside_range_seen"] = ctx.obs.get("events_inside_range_seen", 0) + int(inr.sum())
             good = inr & np.isfinite(snr)
+            # the SNR is a sum over frequency bins whose terms can have either sign (Askaryan phase):
+            # rounding is relative to the sum of the terms' magnitudes, not to the cancelled total
+            from nuspacesim.simulation.eas_radio.radio_antenna import calculate_snr as _snr
+
+            r_ = cfg.detector.radio
+            scale = np.asarray(_snr(np.abs(E), (r_.low_frequency, r_.high_frequency), cfg.detector.initial_position.altitude, 1, r_.gain))
             # ---- energy scaling
             for k in (0.1, 2.0, 1e3):
                 E2, snr2 = chain(cfg, (beta, alt, l, theta, L, se * k), seed=seed)
                 ctx.count("energy", int(good.sum()))
                 d = np.abs(snr2[good] - k * snr[good])
-                if not np.all(d <= 1e-12 * np.abs(k * snr[good]) + 1e-300):
-                    i = int(np.flatnonzero(good)[int(np.argmax(d))])
+                tol_ = 1e-12 * k * math.sqrt(cfg.detector.radio.nantennas) * scale[good] + 1e-9 * np.abs(k * snr[good]) + 1e-300  # the geomagnetic and Askaryan terms can cancel inside a bin as well
+                if not np.all(d <= tol_):
+                    i = int(np.flatnonzero(good)[int(np.flatnonzero(~(d <= tol_))[0])])
                     ctx.violation("energy", f"detector {det} km: scaling the shower energy by {k} changes the SNR of event {i} from {snr[i]!r} to {snr2[i]!r} (expected {k * snr[i]!r})", dict(wit, k=k, event=i))
                     break
             # ---- antennas
@@ -194,8 +202,9 @@ def relations(ctx, si, payload):
                 _, sn = chain(cfg, args, seed=seed)
                 ctx.count("antennas", int(good.sum()))
                 d = np.abs(sn[good] - math.sqrt(nn) * s1[good])
-                if not np.all(d <= 1e-12 * np.abs(math.sqrt(nn) * s1[good]) + 1e-300):
-                    i = int(np.flatnonzero(good)[int(np.argmax(d))])
+                tol_ = 1e-12 * math.sqrt(nn) * scale[good] + 1e-9 * np.abs(math.sqrt(nn) * s1[good]) + 1e-300
+                if not np.all(d <= tol_):
+                    i = int(np.flatnonzero(good)[int(np.flatnonzero(~(d <= tol_))[0])])
                     ctx.violation("antennas", f"SNR with {nn} antennas is {sn[i]!r}, sqrt({nn}) x the single-antenna SNR {s1[i]!r} = {math.sqrt(nn) * s1[i]!r}", dict(wit, antennas=nn))
                     break
             cfg.detector.radio.nantennas = base_n
